@@ -196,6 +196,24 @@ def run(ck):
         ck.ob('C28.limiter', 'C28.limiter/%s/prune' % lname, okp and len(erase) >= 1, fn.loc(),
               '%s prunes exactly the entries with now - t > %s before counting' % (lname, win_q))
 
+    # ---- numeric headers are parsed without wrap-around: a PAYLOAD-LENGTH / TTL of 2^64 + k must be refused, not read as k -----------
+    from sa.absint2 import Analyzer, summarize, report
+    pu = [f for f in P.fns if f.q.endswith('::parse_uint64')]
+    if not pu:
+        raise AnalysisBroken('parse_uint64 not found')
+    pu = pu[0]
+    ck.touch(pu)
+    an = Analyzer(P, inline=lambda q: False)
+    an.wrap_fns = lambda q: q == pu.q
+    an.run(pu)
+    sites = summarize(an)
+    nwrap = len([1 for e in sites.values() if e['kind'] == 'wrap'])
+    report(ck, 'C28', sites, kinds=('wrap', 'bound', 'loop'))
+    uses_from_chars = any((pu.nodes[i].get('callee') or '') == 'std::from_chars' for i in pu.walk())
+    ck.ob('C28.parse', 'C28.parse/overflow-refused', uses_from_chars or nwrap > 0, pu.loc(),
+          'parse_uint64 either delegates to std::from_chars (which reports out-of-range) or its own arithmetic is proved not to wrap '
+          '(%s; %d arithmetic site(s) analysed)' % ('std::from_chars' if uses_from_chars else 'hand-written', nwrap))
+
 
 def lambda_re(pat):
     import re
